@@ -182,6 +182,46 @@ def agreement_job(job):
     return out
 
 
+def plain_job(job):
+    """A mean-field system that ignores the field evolves as in a plain TEMPO run: explicitly time-dependent
+    Hamiltonian, Lindblad rate and Lindblad operator, both mean-field methods against Tempo."""
+    import oqupy
+    seed, t0 = job
+    dt, n = 0.125, 4
+    sx = np.array([[0, 1], [1, 0]], dtype=complex)
+    sz = np.diag([1.0 + 0j, -1.0])
+    sm = np.array([[0, 0], [1, 0]], dtype=complex)
+    w = probes.probe_weights(seed, 24, scale=2e-2)
+    ham = lambda t: 0.5 * sz + 0.4 * np.cos(1.3 * t) * sx
+    gam = lambda t: 0.3 + 0.25 * np.sin(2.0 * t) + 0.1 * t
+    lop = lambda t: sm + 0.2 * np.cos(t) * sz
+    rho = np.array([[0.6, 0.2 - 0.1j], [0.2 + 0.1j, 0.4]])
+    out = []
+    try:
+        bath = oqupy.Bath(0.5 * sz, probes.make_probe_sd(w, dt))
+        params = oqupy.TempoParameters(dt=dt, epsrel=1e-13, dkmax=3)
+        end = t0 + n * dt + dt / 4
+        ref = oqupy.Tempo(oqupy.TimeDependentSystem(ham, gammas=[gam], lindblad_operators=[lop]), bath, params, rho.copy(),
+                          t0).compute(end, progress_type="silent")
+
+        def mk():
+            fs = oqupy.TimeDependentSystemWithField(lambda t, a: ham(t), gammas=[gam], lindblad_operators=[lop])
+            return oqupy.MeanFieldSystem([fs], field_eom=lambda t, st, a: -0.5j * a + 0.2 * t)
+        a = oqupy.MeanFieldTempo(mk(), [bath], params, [rho.copy()], 0.3 - 0.1j, t0).compute(end, progress_type="silent")
+        pt = oqupy.PtTempo(bath, t0, end, params).get_process_tensor(progress_type="silent")
+        b = oqupy.compute_dynamics_with_field(mk(), 0.3 - 0.1j, process_tensor_list=[pt], initial_state_list=[rho.copy()],
+                                              start_time=t0, progress_type="silent")
+    except Exception as ex:  # pylint: disable=broad-except
+        return [{"what": "exception", "detail": "%s: %s" % (type(ex).__name__, str(ex)[:150])}]
+    for name, res in (("MeanFieldTempo", a), ("compute_dynamics_with_field", b)):
+        got = np.array(res.system_dynamics[0].states)
+        want = np.array(ref.states)
+        if got.shape != want.shape or not np.max(np.abs(got - want)) < 1e-7:
+            out.append({"what": "field-independent-system-differs-from-tempo", "method": name,
+                        "err": float(np.max(np.abs(got - want))) if got.shape == want.shape else "shape"})
+    return out
+
+
 def run(ctx):
     quick = ctx.tier == "quick"
     coefs = [(1, 2, 0, 0, 0), (0.5, -1, 0, 0, 0), (0, 1, 1, 0, 0), (1, 0, 2, 0, -1), (0.5, 1, 1, 1, 0), (0, 0, 1, 0, 1),
@@ -211,6 +251,11 @@ def run(ctx):
         ctx.case({"agreement": {"t0": j[1], "systems": j[2], "dkmax": j[3]}}, nontrivial=True)
         for x in mm:
             ctx.violation("C09:agreement:%s" % x["what"], "%s: %s" % (j, x), {"agreement": list(j)})
+    pjobs = [(ctx.seed, t0) for t0 in (0.0, 1.0, -0.75)]
+    for j, mm in zip(pjobs, core.pmap(plain_job, pjobs)):
+        ctx.case({"field_independent_vs_tempo": {"t0": j[1]}}, nontrivial=True)
+        for x in mm:
+            ctx.violation("C09:plain:%s" % x["what"], "%s: %s" % (j, x), {"plain": list(j)})
     ctx.rule = ("every configuration of MeanField.tla (7 equations of motion x 3 start times x 2 initial fields x 3 system "
                 "lists x (dt, steps)) x {MeanFieldTempo, compute_dynamics_with_field record_all True/False}; plus "
                 "differential agreement of the two methods for field-dependent Hamiltonians with probe-bath process tensors")
@@ -220,6 +265,12 @@ def run(ctx):
 
 
 def replay(ctx, rep):
+    if "plain" in rep["case"]:
+        core._init_worker()
+        ctx.case({"replay": True})
+        for x in plain_job(tuple(rep["case"]["plain"])):
+            ctx.violation("C09:replay:" + x["what"], str(x), rep["case"])
+        return
     core._init_worker()
     c = rep["case"]
     if "agreement" in c:
